@@ -60,7 +60,8 @@ CFG = {
                 "slices handed to the implementation are allocated per step and never touched again by the harness: a "
                 "caller mutating a slice it gave to SetFloat3Attribute/SetIndices/NewMesh, or the slice Materials() hands "
                 "out, is outside the property (it quantifies over mesh operations)",
-                "export steps count as Ok whatever the writer returns (writers only read; the pool is re-read afterwards)"],
+                "export steps count as Ok whatever the writer returns (writers only read; the pool is re-read afterwards); writers "
+                "that take the mesh by pointer (glTF) are handed the address of the pool member itself"],
     "modelled": ["Go runtime append/growslice: modelled as in-place write when len+n <= cap, else fresh array of grow(cap,n) "
                  "cells with grow arbitrary (theorem quantifies over it)",
                  "Go map iteration order and AttributeLength()'s choice of 'some attribute': histories keep attribute "
